@@ -19,6 +19,8 @@ import (
 
 	"github.com/cosi-project/runtime/pkg/controller"
 	"github.com/cosi-project/runtime/pkg/controller/generic/cleanup"
+	"github.com/siderolabs/gen/xerrors"
+
 	"github.com/cosi-project/runtime/pkg/controller/generic/qtransform"
 	"github.com/cosi-project/runtime/pkg/controller/generic/transform"
 	"github.com/cosi-project/runtime/pkg/resource"
@@ -298,7 +300,10 @@ type gateT struct {
 	armed    bool
 	ch       chan struct{}
 	failNext atomic.Int32
+	skip     atomic.Bool // from now on the transform asks to skip the reconcile (SkipReconcileTag)
 }
+
+var errSkip = errors.New("transform asks to skip")
 
 func (g *gateT) pass(ctx context.Context) error {
 	g.mu.Lock()
@@ -317,6 +322,10 @@ func (g *gateT) pass(ctx context.Context) error {
 		g.failNext.Add(-1)
 
 		return errors.New("transient transform failure")
+	}
+
+	if g.skip.Load() {
+		return errSkip
 	}
 
 	return nil
@@ -385,6 +394,14 @@ func runBehaviour(t *testing.T, tr *vh.Trace, tid string, cfg Config, beh []Cmd)
 
 		transformF := func(ctx context.Context, _ controller.Reader, _ *zap.Logger, in *A, out *B) error {
 			if perr := g.pass(ctx); perr != nil {
+				if errors.Is(perr, errSkip) {
+					if cfg.Q {
+						return xerrors.NewTagged[qtransform.SkipReconcileTag](perr)
+					}
+
+					return xerrors.NewTagged[transform.SkipReconcileTag](perr)
+				}
+
 				return perr
 			}
 
@@ -530,6 +547,11 @@ func runBehaviour(t *testing.T, tr *vh.Trace, tid string, cfg Config, beh []Cmd)
 				g.release()
 			case "failnext":
 				g.failNext.Add(1)
+			case "skipmode":
+				if !cfg.Cleanup {
+					g.skip.Store(true)
+					emit(Line{Ev: "skipmode"})
+				}
 			case "wait":
 				time.Sleep(2 * time.Second)
 			}
